@@ -998,6 +998,8 @@ def _reuse_ids(rng, op, mem, p):
     for key, sub in slots:
         cur = op[key][sub] if sub else op[key]
         same = [l for l in used if len(l) == len(cur)]
+        if op['k'] == 'setRows' and len(op['v']) != len(cur):
+            same = []       # (a single value row for several selected rows would be broadcast by numpy)
         if same and rng.random() < p:
             new = list(same[rint(rng, 0, len(same) - 1)])
             op['reused'] = True
@@ -1930,7 +1932,7 @@ def big_histories(ctx, cfg, rng):
 # ================================================================== entry points
 QUICK_FAMILIES = [('std', 330), ('dtype', 90), ('mixed', 90), ('views', 50), ('idpool', 70), ('empty-rows', 40),
                   ('scale-up', 20), ('scale-down', 20)]
-THOROUGH_FAMILIES = [('std', 4000), ('dtype', 1200), ('mixed', 1200), ('views', 600), ('idpool', 800), ('empty-rows', 500),
+THOROUGH_FAMILIES = [('std', 3600), ('dtype', 1200), ('mixed', 1200), ('views', 600), ('idpool', 500), ('empty-rows', 500),
                      ('scale-up', 250), ('scale-down', 250)]
 
 
